@@ -370,10 +370,11 @@ func (p *Parser) parseObjectLiteral() ast.Expression {
 			break
 		}
 
-		if p.peekTokenIs(token.COMMA) {
-			p.nextToken() // move to ","
-			p.nextToken() // skip ","
+		if !p.expectPeek(token.COMMA) { // move to ","
+			return nil
 		}
+
+		p.nextToken() // skip ","
 	}
 
 	return obj
